@@ -26,6 +26,9 @@ package parse
 // (previously absent) index into the map in that same critical section; children are retrieved one level deeper.
 //@ func (*Parser).collectSpecs
 //@   requires retrieved != nil && retrieved.l != nil && p != nil
+// the only things a collector can wait for are the list's mutex and the errgroup of its own imports: nothing whose
+// release depends on another file having been read successfully
+//@   structure blocks-only-on sync.(*Mutex).Lock,errgroup.(*Group).Wait
 //@   ghostset @call:sync.(*Mutex).Lock locked
 //@   ghostclear @call:sync.(*Mutex).Unlock locked
 //@   ghostset @mapupdate:map[parse.retrievedListIndex]*parse.fileInfo claimed
@@ -90,6 +93,7 @@ package parse
 
 // g.Wait() failing, a compiled-model merge failing or a syntax error all end the compile with (nil, err)
 //@ func (*Parser).parseSpecs
+//@   structure blocks-only-on errgroup.(*Group).Wait
 //@   errprop-nil Group).Wait mergo.Merge parse.parseString parse.walkTree
 //@   structure no-channel-ops
 //@   assert @call:github.com/imdario/mergo.Merge [a-compiled-model-is-merged-only-if-it-decoded-without-error] v.err == nil
